@@ -233,4 +233,18 @@ CHECKS = {
              "checks": {"quick": 3, "thorough": 40}, "shards": {"quick": 4, "thorough": 16}, "shrinktime": "60s"},
         ],
     },
+    "C08": {
+        "level_text": "Stateful exploration of overlapping stream incarnations in the routing world with the harness owning the order of old-cleanup vs successor-registration at the stream boundary and at two guarded schedule points inside the code (vfYield hooks); registry-identity, delivery, no-escaped-panic and clean-shutdown oracles.",
+        "technique": "stateful property-based testing with rapid over harness-owned schedules (virtual time, gated stream calls, build-tag-guarded schedule points); registry-identity and leak oracles",
+        "level": "exploration",
+        "assumptions": [
+            "schedules are explored where the harness owns the boundary: delivery of a cancellation to a blocked Recv, completion of a stream-open call, the two vfYield points (UnregisterShard's unlock window, after the sender closed its channel); interleavings inside other critical sections are not enumerated",
+            "registrations never share a timestamp (the harness advances the virtual clock by 1ns between opens, as wall clocks do)",
+            "'all streams have ended' includes the initiator side of superseded incarnations",
+        ],
+        "parts": [
+            {"name": "rapid", "pkg": "proxy", "run": "^TestVF_C08_Rapid$",
+             "checks": {"quick": 2500, "thorough": 25000}, "shards": {"quick": 4, "thorough": 16}},
+        ],
+    },
 }
